@@ -186,6 +186,17 @@ def histModel (ops : List (HOp α)) : List (HObs α) := hrun modelImpl HState.em
 
 end model
 
+/-! ## 4. Re-entrant use: the output of a call is the input of another call of the same filter -/
+
+/-- `f(f(…f(xs, memory=m₁)…, memory=m_{k-1}), memory=m_k)`: one filter object, its generators nested;
+generic in the one-call function so that model and specification share the plumbing -/
+def cascadeWith (callF : Mem α → List α → Except Err (List α)) : List (Mem α) → List α → Except Err (List α)
+  | [], xs => .ok xs
+  | m :: ms, xs =>
+    match callF m xs with
+    | .error e => .error e
+    | .ok ys => cascadeWith callF ms ys
+
 /-- a caller's mutation (as opposed to a use of the filter) -/
 def HOp.isStore : HOp α → Bool
   | .setNums _ _ => true
